@@ -58,6 +58,10 @@ OBLIGATIONS.append(dict(name="page_symlist", src="page.c", include=["asmpars.c"]
     bounds="PAGE with 1..2 operands of any 64-bit value, then the symbol-table listing of one symbol whose value text has 0..6 characters",
     assumes=["contract evaluator (documented ranges of the requested integer type)", "listing sink, message catalogue, value formatting (StrSym) and line collection (PrintSymbolList_AddOut) replaced by stubs",
              "formatted output (as_sdprintf) empty: the name part of the column is the empty string"]))
+OBLIGATIONS.append(dict(name="exitm_cleanup", src="cleanup.c", include=["as.c"], units=["asmdef.c", "stringlists.c"], stubs=["diag.c", "fmt_off.c"], defs=["STRINGSIZE=16"], nobody_mode="nondet",
+    unwind=6, timeout=600, functions=["as.c:MACRO_Cleanup", "as.c:IRP_Cleanup", "as.c:REPT_Cleanup", "as.c:WHILE_Cleanup", "stringlists.c:ClearStringList"],
+    bounds="tags of the five macro-like kinds with 0..2 parameters and 0..2 body lines; Cleanup run twice",
+    assumes=["the tag is built by the harness with the real string-list functions; the processors themselves are not run"]))
 META = dict(outside=["whole utilities on arbitrary bytes: harnesses exist (thorough tier) but p2bin/plist do not finish; known by reading: a file truncated after an entry record makes p2bin/p2hex loop forever, granularity byte 0 divides by zero, segment byte >= 11 indexes out of bounds",
                      "asl itself on arbitrary source bytes (line splitter/macro processor/expression parser do not finish under symex)", "alink, dasl, p2hex (pending)",
                      "files longer than the stated bound", "all code generators"],
